@@ -429,6 +429,7 @@ func main() {
 	controlCases(thorough)
 	earlyCloseCases()
 	readVsCases(thorough)
+	growCases(thorough)
 	expiredCases(r, thorough)
 	readerCases(r, thorough)
 }
